@@ -16,6 +16,9 @@ WRAPPERS = {          # name -> (prefix, suffix, allows_scoped_ops)
     'bare': ('', '', True),
     'lambda_formals': ('{ pkgs, lib }:\n', '', True),
     'lambda_id': ('pkgs:\n', '', True),
+    'lambda_id_inline': ('pkgs: ', '', True),               # body starts on the colon line (third round of seeds)
+    'lambda2_inline': ('final: prev: ', '', True),
+    'lambda_formals_inline': ('{ pkgs }: ', '', True),
     'with': ('with pkgs;\n', '', False),
     'assert': ('assert cond;\n', '', False),
     'call': ('stdenv.mkDerivation ', '', False),
@@ -27,27 +30,36 @@ def gen_layers(R, n):
     for i in range(1, n):
         if R.random() < 0.3: ls[i] = dict(ls[i - 1])        # the same names and values in adjacent layers
     return ls
-def let_text(layers, body):
+def let_text(layers, body, joints=None):
+    """joints[i] = comment text placed between the `in` of layer i and what follows (the next `let` or the body)"""
     t = body
-    for L in reversed(layers):
-        t = 'let\n' + ''.join('  %s = %s;\n' % kv for kv in L.items()) + 'in\n' + t
+    for i, L in reversed(list(enumerate(layers))):
+        j = joints[i] if joints else ''
+        t = 'let\n' + ''.join('  %s = %s;\n' % kv for kv in L.items()) + 'in\n' + j + t
     return t
-def gen_doc(R, scoped=False, maxlayers=3):
+TINY = ['{ a.b.c = 1; }', '{\n  a.b.c = 1;\n}', 'rec { a.b.c = 1; }', '{ a.b = 1; }', '{ x = 1; }', '{ a.b.c = 1; a.b.d = 2; }', '{\n  a.b.c.d = 1;\n}']
+def gen_doc(R, scoped=False, maxlayers=3, quoted=0.0, tiny=0.0, joints=0.0):
     """canonical document: wrapper + 0..n let layers directly around a canonical F0 set; returns (text, meta)"""
     G = DocGen(R, refs=False, families=0.2)
     G.attrpath_top_only = True
+    G.quoted_names = quoted
     body = G.mset(0, 2)
-    if R.random() < 0.25: body = 'rec ' + body
-    commented = R.random() < 0.3
+    is_tiny = R.random() < tiny
+    if is_tiny: body = R.choice(TINY)
+    elif R.random() < 0.25: body = 'rec ' + body
+    commented = R.random() < 0.3 and not is_tiny
     if commented: body = R.choice(['# about this set\n', '# pinned\n# by tooling\n', '/* note */\n']) + body
     shapes = [k for k, v in WRAPPERS.items() if v[2] or not scoped]
     shape = R.choice(shapes)
     nl = R.choice([0, 0, 1, 1, 2, 3][:maxlayers + 3]) if WRAPPERS[shape][2] else 0
     layers = gen_layers(R, nl)
     pre, suf, _ = WRAPPERS[shape]
+    jt = [R.choice(['# joint %d\n' % i, '', '/* j%d */\n' % i, '# a\n# b\n']) if R.random() < joints else '' for i in range(nl)]
     if shape in ('call', 'lambda_call'): text = pre + body + '\n'
-    else: text = pre + let_text(layers, body) + suf + '\n'
-    return text, {'shape': shape, 'layers': layers, 'commented': commented}
+    else:
+        if layers and pre.endswith(' '): pre = pre[:-1] + '\n'          # a let under an inline lambda head starts on its own line
+        text = pre + let_text(layers, body, jt) + suf + '\n'
+    return text, {'shape': shape, 'layers': layers, 'commented': commented, 'joints': jt, 'tiny': is_tiny}
 
 # ------------------------------------------------------------------ readers over the CST
 def read_layers(text):
